@@ -40,7 +40,7 @@ VALS = [["str", ""], ["str", "ascii"], ["str", "é∑漢"], ["str", "line1\r\nli
         ["dict", [["a", ["int", 1]]]], ["tuple", [["int", 1], ["none"]]], ["frame", 3], ["frame", 0], ["frame", 4, "labels"], ["frame", 4, "named"], ["frame", 5, "filtered"],
         ["frame", 4, "multi"], ["frame", 3, "offset"], ["int", 5],
         ["obj2inner", 4], ["obj2pkg", 4], ["obj2inner", 5]]
-REGS = ["tagstr", "objjson", "objpickle2", "bytes2", "builtin_string", "builtin_pickle", "pkgobj2", "pkgobj2"]
+REGS = ["tagstr", "objjson", "objpickle2", "bytes2", "builtin_string", "builtin_pickle", "pkgobj2", "pkgobj2", "tagstr2", "bytes3"]
 
 
 def gen_case(streams, tier, avoid):
